@@ -2057,8 +2057,14 @@ static bool initMemoryManager()
         extMemPool.init(0, nullptr, nullptr, granularity,
                         /*keepAllMemory=*/false, /*fixedPool=*/false);
 // TODO: extMemPool.init() to not allocate memory
-    if (!initOk || !initBackRefMain(&defaultMemPool->extMemPool.backend) || !ThreadId::init())
+    if (!initOk)
         return false;
+    if (!initBackRefMain(&defaultMemPool->extMemPool.backend) || !ThreadId::init()) {
+        // The TLS key created by extMemPool.init() must not be leaked: the initialization is retried
+        // by the next request, and the number of keys per process is limited.
+        defaultMemPool->extMemPool.tlsPointerKey.destroy();
+        return false;
+    }
     MemoryPool::initDefaultPool();
     // init() is required iff initMemoryManager() is called
     // after mallocProcessShutdownNotification()
